@@ -212,8 +212,8 @@ example : run .query 100000 exPath2 exDoc2 {} = .items [.int 2, .int 3, .int 4] 
   run_fuel_independent .query 50 100000 exPath2 exDoc2 {} (by rw [show run .query 50 exPath2 exDoc2 {} = .items [.int 2, .int 3, .int 4] from rfl]; simp) (by decide)
 
 
-example : fuelBound exPath exDoc {} = 21 := by decide
-example : fuelBound exPath2 exDoc2 {} = 28 := by decide
+example : fuelBound exPath exDoc {} = 18 := by decide
+example : fuelBound exPath2 exDoc2 {} = 26 := by decide
 /-- the driver's default fuel (100000) is far above the bound for these inputs -/
 example : run .query 100000 exPath2 exDoc2 {} = run .query (fuelBound exPath2 exDoc2 {}) exPath2 exDoc2 {} :=
   run_eq_bound_of_ge .query 100000 exPath2 exDoc2 {} (by decide)
